@@ -15,6 +15,7 @@ type FnInfo struct {
 	firstNon []int // block index -> index of first non-phi instruction
 	noMerge  bool
 	liveOnce sync.Once
+	loopExit []bool // block index -> the If at its end can leave a cycle the block is in
 	live     *liveInfo
 }
 
@@ -70,6 +71,7 @@ func (p *Program) info(fn *ssa.Function) *FnInfo {
 		fi.firstNon[i] = k
 	}
 	fi.ipdom = computeIPDom(fn)
+	fi.loopExit = computeLoopExit(fn)
 	v, _ := p.fnInfo.LoadOrStore(fn, fi)
 	return v.(*FnInfo)
 }
@@ -232,6 +234,8 @@ type State struct {
 	pc      []*Term
 	nondets []NondetRec
 	model   Model
+	memo    map[*Term]uint64
+	memoPtr uintptr
 	reached []string
 	notes   []string
 	steps   int
@@ -298,4 +302,45 @@ func elemType(t types.Type, i int) types.Type {
 		return u.At(i).Type()
 	}
 	panic(fmt.Sprintf("elemType of %v", t))
+}
+
+// computeLoopExit marks blocks that lie on a cycle and have a successor from
+// which the block is not reachable again (the branch controls loop termination).
+func computeLoopExit(fn *ssa.Function) []bool {
+	n := len(fn.Blocks)
+	res := make([]bool, n)
+	// reach[i] = set of blocks reachable from i (by >=1 edge)
+	reach := make([][]bool, n)
+	for i := 0; i < n; i++ {
+		seen := make([]bool, n)
+		stack := []int{}
+		for _, s := range fn.Blocks[i].Succs {
+			if !seen[s.Index] {
+				seen[s.Index] = true
+				stack = append(stack, s.Index)
+			}
+		}
+		for len(stack) > 0 {
+			b := stack[len(stack)-1]
+			stack = stack[:len(stack)-1]
+			for _, s := range fn.Blocks[b].Succs {
+				if !seen[s.Index] {
+					seen[s.Index] = true
+					stack = append(stack, s.Index)
+				}
+			}
+		}
+		reach[i] = seen
+	}
+	for i := 0; i < n; i++ {
+		if !reach[i][i] {
+			continue // not on a cycle
+		}
+		for _, s := range fn.Blocks[i].Succs {
+			if !reach[s.Index][i] {
+				res[i] = true
+			}
+		}
+	}
+	return res
 }
